@@ -113,6 +113,12 @@ func peach(fm *Frame, opts peachOpt, f Callable, inputs Inputs) error {
 				atomic.StoreInt32(&broken, 1)
 				return
 			}
+			// A callback that finished while we were waiting may have asked to
+			// stop the iteration.
+			if atomic.LoadInt32(&broken) != 0 {
+				workerSema.Release(1)
+				return
+			}
 		}
 		wg.Add(1)
 		go func() {
